@@ -65,6 +65,7 @@ pub struct E1<'c> {
     pub last_fault_cb: Option<Cb>,
     /// a recorded finding has manifested: its after-effects are unspecified, stop the run
     pub stop_run: bool,
+    pub restored_ts_stale: bool,
 }
 
 pub fn expected_obs(ev: &mut Eval, prog: &Program, n: usize, arg: u32, deep: bool) -> Result<Obs, Abort> {
@@ -142,7 +143,7 @@ impl<'c> E1<'c> {
         fault::MASK.store(case.fault_mask, SeqCst);
         let db = SimDatabase::new(&case.prog, &world);
         let oracles = crate::oracles::for_case(case);
-        E1 { case, db: Some(db), world, out: RunOut::default(), step: 0, never: Default::default(), oracles, queries: 0, cycle_panicked_in_rev: false, fb_defect_seen: false, injected_now: false, poisoned_now: false, injected_in_rev: false, last_fault_cb: None, stop_run: false }
+        E1 { case, db: Some(db), world, out: RunOut::default(), step: 0, never: Default::default(), oracles, queries: 0, cycle_panicked_in_rev: false, fb_defect_seen: false, injected_now: false, poisoned_now: false, injected_in_rev: false, last_fault_cb: None, stop_run: false, restored_ts_stale: false }
     }
 
     fn db(&self) -> &SimDatabase {
@@ -274,6 +275,40 @@ impl<'c> E1<'c> {
                         // diagnosis of the recorded C13 finding: a member of a fallback cycle
                         // returned its body value (gets its own violation class, so that any
                         // other mismatch is still reported as value_mismatch)
+                        let restored = self.out.stats.get("restores").copied().unwrap_or(0) > 0;
+                        // direct evidence in the probe log: a struct was (re-)created with one value
+                        // of a tracked field and read back with another
+                        let stale_field_seen = restored && {
+                            let log = self.db().shared.log.lock().unwrap();
+                            let mut last: std::collections::HashMap<u64, (u32, u32)> = Default::default();
+                            let mut bad = false;
+                            for ev in log.iter() {
+                                match ev {
+                                    Ev::NewTs { id, t0, t1, .. } => {
+                                        last.insert(*id, (*t0, *t1));
+                                    }
+                                    Ev::RdTs { id, f, v } => {
+                                        if let Some((t0, t1)) = last.get(id) {
+                                            if (*f == 1 && v != t0) || (*f == 2 && v != t1) {
+                                                bad = true;
+                                            }
+                                        }
+                                    }
+                                    _ => {}
+                                }
+                            }
+                            bad
+                        };
+                        if restored && (e.ts != g.ts || self.restored_ts_stale || stale_field_seen) {
+                            // recorded finding (C26): serialization marks every tracked struct as
+                            // updated in the current revision, so a creator re-executed in that
+                            // revision skips updating the struct's fields
+                            self.restored_ts_stale = true;
+                            self.out.viol("restored_tracked_struct_fields_stale", step, format!("node {n}: expected {e:?} got {g:?}"));
+                            info.ok = true;
+                            self.drain(&info);
+                            return;
+                        }
                         let fb = prog.nodes.iter().any(|x| x.kind == Kind::Fb);
                         // the recorded finding needs a mutable step (new revision or cancellation)
                         // before the request; histories without one are judged exactly. Wrong body
@@ -308,6 +343,17 @@ impl<'c> E1<'c> {
                             // already-deleted outputs
                             self.out.viol("stale_output_discard_interrupted", step, format!("node {n}: after a panic in the event callback during stale-output deletion the retry fails: {m}"));
                             self.stop_run = true;
+                        }
+                        PK::Msg(m) if m.contains("cannot delete read-locked id") && self.out.stats.get("restores").copied().unwrap_or(0) > 0 => {
+                            // same root cause as restored_tracked_struct_fields_stale: the struct counts as
+                            // updated in the snapshot revision, so dropping it there fails
+                            self.out.viol("restored_tracked_struct_delete_panics", step, format!("node {n}: {m}"));
+                            self.stop_run = true;
+                        }
+                        PK::Msg(m) if m.contains("cannot be accessed before calling `init`") && self.out.stats.get("restores").copied().unwrap_or(0) > 0 => {
+                            // recorded finding (C26): verifying a restored memo reaches a persisted function
+                            // that has not been called yet on the restored database
+                            self.out.viol("restored_dependency_uninitialized_function", step, format!("node {n}: {m}"));
                         }
                         other => self.out.viol("unexpected_panic", step, format!("node {n} arg {arg}: expected {e:?} got panic {other:?}")),
                     }
